@@ -9,7 +9,17 @@ TRUSTED_BASE = [
     "python driver ./check",
 ]
 
+CORE_TRUSTED = ["math/big, crypto/sha256, encoding/asn1, encoding/json (modelled or used as given; validated differentially)",
+                "ECDSA/CBOR verification of signed accumulators enters the model as an observed oracle value"]
+
 PROPS = {
+    "C08": {
+        "suite": "C08",
+        "ref_sample": 4,
+        "trusted": CORE_TRUSTED,
+        "assumptions": ["public keys are well-formed (wf_pk: modulus > 1, all bases units mod N, at least one base R_0)"],
+        "partial": [],
+    },
     "C15": {
         "suite": "C15",
         "mismatch_is_violation": True,   # the Coq definition is the property's reference
